@@ -124,6 +124,13 @@ def run(ctx):
         chk.append({"word": list(e), "mask": list(mask), "accepted": bool(RS.check(bytes(e), bytes(mask)))})
         r = bytes(rng.getrandbits(8) for _ in range(12))
         chk.append({"word": list(r), "mask": list(mask), "accepted": bool(RS.check(r, bytes(mask)))})
+    # what a tolerant checker might take for the parity: its octets in the other order, rotated, complemented, mask left off
+    for w, mask in words[:300]:
+        p = list(w[9:])
+        for q in (p[::-1], p[1:] + p[:1], [x ^ 0xFF for x in p], [a ^ b for a, b in zip(p, mask)], [int(format(x, "08b")[::-1], 2) for x in p]):
+            if q != p:
+                e = bytes(w[:9]) + bytes(q)
+                chk.append({"word": list(e), "mask": list(mask), "accepted": bool(RS.check(e, bytes(mask)))})
     # accepted non-generated words would need 2^-24 luck; add near-codewords in the parity symbols only
     for w, mask in words[:200]:
         e = bytearray(w)
